@@ -87,6 +87,25 @@
 (* spec).  `resel' remembers the resources on which an entry has exited    *)
 (* whose arguments, read with the rule in force at its exit, no longer     *)
 (* give the value it was admitted with; a mismatch reports it.             *)
+(* Other slots that fail (Points of HotParamConc).  With "chain" in the    *)
+(* "new" event the entries go through a chain of their own (api.            *)
+(* WithSlotChain): the default slots, or only the hot-parameter slots, plus *)
+(* three user slots - a rule-check slot in front of every check, a         *)
+(* statistic slot in front of and one behind the hot-parameter statistic   *)
+(* slot; "pp" of a request says which of them panics while it is served    *)
+(* (chk / sb / sa when told "passed"; cb / ca when told "completed").      *)
+(* Judged as in the design spec:                                           *)
+(*   panic      never reaches the caller of api.Entry or Exit               *)
+(*   decision   pp = chk: admitted (fail-open, the check never ran); else   *)
+(*              the usual decision - the request is admitted iff the check  *)
+(*              admits it, whoever panics afterwards                        *)
+(* and an admitted entry is COUNTED unless pp is chk or sb (the             *)
+(* hot-parameter statistic slot was never told): every figure (lo, hi,      *)
+(* cap) ranges over the live entries that were counted; a counted entry     *)
+(* holds its unit until its exit and releases it then, whatever panics at   *)
+(* the exit.  `cbx' remembers the resources on which a counted entry whose  *)
+(* completion panics in an EARLIER slot (cb) has exited; a mismatch reports *)
+(* it together with `under' (the outcome needs a figure ABOVE hi).          *)
 (* The abstract state follows the OBSERVED outcome, so it stays in step    *)
 (* with the real code after a reported mismatch.  Many traces are          *)
 (* concatenated; "new" starts one; the first mismatch of a trace is        *)
@@ -106,9 +125,10 @@ VARIABLES
     rv,       \* [ver, base]: resource name -> rule version in force / version with which the counters in use started (absent: 0)
     stale,    \* resources on which an entry admitted before the counters in use started has exited since
     resel,    \* resources on which an entry has exited that the rule in force then read as another value than it was admitted with
+    cbx,      \* resources on which a counted entry has exited while a statistic slot in front of the hot-parameter one panicked (cb)
     failed
 
-tvars == <<l, live, seen, g, pend, peak, rv, stale, resel, failed>>
+tvars == <<l, live, seen, g, pend, peak, rv, stale, resel, cbx, failed>>
 Ev == Trace[l]
 Has(r, f) == f \in DOMAIN r
 
@@ -121,9 +141,12 @@ Ver(res)  == Get(rv.ver, res)
 Base(res) == Get(rv.base, res)
 Limited(res, v) == v # None /\ Ruled(res)
 \* hi: all live entries for the value; lo: those admitted since the counters in use started (LiveFor / LiveSince of HotParamConc)
-Count(lv, res, v)      == Cardinality({ id \in DOMAIN lv : lv[id].res = res /\ lv[id].v = v })
-CountSince(lv, res, v) == Cardinality({ id \in DOMAIN lv : lv[id].res = res /\ lv[id].v = v /\ lv[id].ver >= Base(res) })
-CountCur(lv, res, v)   == Cardinality({ id \in DOMAIN lv : lv[id].res = res /\ lv[id].v = v /\ lv[id].ver = Ver(res) })
+\* (only the live entries that were COUNTED: lv[id].c)
+Count(lv, res, v)      == Cardinality({ id \in DOMAIN lv : lv[id].res = res /\ lv[id].v = v /\ lv[id].c })
+CountSince(lv, res, v) == Cardinality({ id \in DOMAIN lv : lv[id].res = res /\ lv[id].v = v /\ lv[id].c /\ lv[id].ver >= Base(res) })
+CountCur(lv, res, v)   == Cardinality({ id \in DOMAIN lv : lv[id].res = res /\ lv[id].v = v /\ lv[id].c /\ lv[id].ver = Ver(res) })
+\* the point at which a user slot panics while the request of this event is served
+PP(e) == IF Has(e, "pp") THEN e.pp ELSE "none"
 Max(a, b) == IF a > b THEN a ELSE b
 \* the admission predicate of HotParamConc over a figure n
 AdmitF(thr, n) == n < thr
@@ -133,6 +156,8 @@ DecOK(ok, lo, hi, thr) == \E n \in lo..hi : ok = AdmitF(thr, n)
 TvOK(ok, tv, lo, hi, thr) == ok \/ \E n \in lo..hi : ~AdmitF(thr, n) /\ tv = n + 1
 \* ... and if not: does the outcome need a figure BELOW lo (more room than the entries admitted since the reload leave) ?
 DecOver(ok, tv, lo, thr) == IF ok THEN ~AdmitF(thr, lo) ELSE tv < Max(lo, thr) + 1
+\* ... or a figure ABOVE hi (a unit is held that no live counted entry occupies) ?
+DecUnder(ok, tv, hi, thr) == ~ok /\ (AdmitF(thr, hi) \/ tv > hi + 1)
 
 \* what every live entry must read back: the arguments it was opened with
 LiveArgsOK(obs, lv) ==
@@ -159,6 +184,7 @@ TNew ==
     /\ rv' = [ver |-> << >>, base |-> << >>]
     /\ stale' = {}
     /\ resel' = {}
+    /\ cbx' = {}
     /\ failed' = FALSE
 
 TReq ==
@@ -168,12 +194,14 @@ TReq ==
            hi    == IF lim THEN Count(live, Ev.res, v) ELSE 0
            lo    == IF lim THEN CountSince(live, Ev.res, v) ELSE 0
            thr   == IF lim THEN Thr(Ev.res, v) ELSE -1
-           live2 == IF Ev.ok THEN live @@ (Ev.id :> [res |-> Ev.res, v |-> v, args |-> Ev.args, atts |-> Ev.atts, ver |-> Ver(Ev.res)]) ELSE live
+           pp    == PP(Ev)
+           live2 == IF Ev.ok THEN live @@ (Ev.id :> [res |-> Ev.res, v |-> v, args |-> Ev.args, atts |-> Ev.atts, ver |-> Ver(Ev.res),
+                                                     c |-> (lim /\ pp \notin {"chk", "sb"}), pp |-> pp]) ELSE live
            pk    == Max(peak, Cardinality(DOMAIN pend) + 1)
            why   == IF Has(Ev, "panic") /\ Ev.panic THEN "panic"
-                    ELSE IF ~lim /\ ~Ev.ok THEN "decision"
-                    ELSE IF lim /\ ~DecOK(Ev.ok, lo, hi, thr) THEN "decision"
-                    ELSE IF lim /\ ~TvOK(Ev.ok, Ev.tv, lo, hi, thr) THEN "tv"
+                    ELSE IF (~lim \/ pp = "chk") /\ ~Ev.ok THEN "decision"
+                    ELSE IF lim /\ pp # "chk" /\ ~DecOK(Ev.ok, lo, hi, thr) THEN "decision"
+                    ELSE IF lim /\ pp # "chk" /\ ~TvOK(Ev.ok, Ev.tv, lo, hi, thr) THEN "tv"
                     ELSE IF ~CapOK(live2, Ev.res, v, pk) THEN "cap"
                     ELSE IF ~LiveArgsOK(Ev.live, live2) THEN "live-args"
                     ELSE "ok"
@@ -183,8 +211,9 @@ TReq ==
            /\ Judge(why = "ok",
                     [why |-> why, admit |-> ~Ev.ok, inflight |-> hi, since |-> lo, v |-> v, thr |-> thr,
                      first |-> (<<Ev.res, v>> \notin seen), tv |-> hi + 1, live |-> ExpLive(live2),
-                     res |-> Ev.res, stale |-> (Ev.res \in stale), resel |-> (Ev.res \in resel), over |-> (lim /\ DecOver(Ev.ok, Ev.tv, lo, thr))])
-    /\ UNCHANGED <<g, pend, rv, stale, resel>>
+                     res |-> Ev.res, stale |-> (Ev.res \in stale), resel |-> (Ev.res \in resel), over |-> (lim /\ DecOver(Ev.ok, Ev.tv, lo, thr)),
+                     pp |-> pp, cbx |-> (Ev.res \in cbx), under |-> (lim /\ DecUnder(Ev.ok, Ev.tv, hi, thr))])
+    /\ UNCHANGED <<g, pend, rv, stale, resel, cbx>>
 
 \* Check of HotParamConc: a caller has taken its decision and is parked before the statistic slot.  The decision
 \* the property demands is fixed HERE, from the entries live now; it is compared with the outcome at "rec".
@@ -192,7 +221,7 @@ TChk ==
     /\ IsEvent("chk")
     /\ LET v   == VOf(Ev)
            lim == Limited(Ev.res, v)
-       IN  /\ pend' = pend @@ (Ev.id :> [res |-> Ev.res, v |-> v, args |-> Ev.args, atts |-> Ev.atts, lim |-> lim,
+       IN  /\ pend' = pend @@ (Ev.id :> [res |-> Ev.res, v |-> v, args |-> Ev.args, atts |-> Ev.atts, lim |-> lim, pp |-> PP(Ev),
                                          hi |-> IF lim THEN Count(live, Ev.res, v) ELSE 0,
                                          lo |-> IF lim THEN CountSince(live, Ev.res, v) ELSE 0,
                                          thr |-> IF lim THEN Thr(Ev.res, v) ELSE -1,
@@ -203,7 +232,7 @@ TChk ==
            /\ Judge(Ev.id \notin DOMAIN pend /\ Ev.id \notin DOMAIN live /\ LiveArgsOK(Ev.live, live),
                     [why |-> IF Ev.id \in DOMAIN pend \cup DOMAIN live THEN "chk-of-known-entry" ELSE "live-args",
                      live |-> ExpLive(live)])
-    /\ UNCHANGED <<live, g, rv, stale, resel>>
+    /\ UNCHANGED <<live, g, rv, stale, resel, cbx>>
 
 \* Record of HotParamConc: the parked caller went through the statistic slot and api.Entry returned
 TRec ==
@@ -212,7 +241,8 @@ TRec ==
          THEN /\ Judge(FALSE, [why |-> "rec-of-unknown-caller"])
               /\ UNCHANGED <<live, pend>>
          ELSE LET p     == pend[Ev.id]
-                  live2 == IF Ev.ok THEN live @@ (Ev.id :> [res |-> p.res, v |-> p.v, args |-> p.args, atts |-> p.atts, ver |-> Ver(p.res)]) ELSE live
+                  live2 == IF Ev.ok THEN live @@ (Ev.id :> [res |-> p.res, v |-> p.v, args |-> p.args, atts |-> p.atts, ver |-> Ver(p.res),
+                                                            c |-> (p.lim /\ p.pp # "sb"), pp |-> p.pp]) ELSE live
                   why   == IF Has(Ev, "panic") /\ Ev.panic THEN "panic"
                            ELSE IF ~p.lim /\ ~Ev.ok THEN "decision"
                            ELSE IF p.lim /\ ~DecOK(Ev.ok, p.lo, p.hi, p.thr) THEN "decision"
@@ -226,8 +256,9 @@ TRec ==
                            [why |-> why, admit |-> ~Ev.ok, inflight |-> p.hi, since |-> p.lo, v |-> p.v, thr |-> p.thr,
                             first |-> p.first, tv |-> p.hi + 1, live |-> ExpLive(live2),
                             cap |-> IF ~p.lim \/ ~Ruled(p.res) THEN -1 ELSE Thr(p.res, p.v) + Max(peak - 1, 0),
-                            res |-> p.res, stale |-> (p.res \in stale), resel |-> (p.res \in resel), over |-> (p.lim /\ DecOver(Ev.ok, Ev.tv, p.lo, p.thr))])
-    /\ UNCHANGED <<seen, g, peak, rv, stale, resel>>
+                            res |-> p.res, stale |-> (p.res \in stale), resel |-> (p.res \in resel), over |-> (p.lim /\ DecOver(Ev.ok, Ev.tv, p.lo, p.thr)),
+                            pp |-> p.pp, cbx |-> (p.res \in cbx), under |-> (p.lim /\ DecUnder(Ev.ok, Ev.tv, p.hi, p.thr))])
+    /\ UNCHANGED <<seen, g, peak, rv, stale, resel, cbx>>
 
 TExit ==
     /\ IsEvent("exit")
@@ -236,8 +267,10 @@ TExit ==
     /\ stale' = IF Ev.id \in DOMAIN live /\ live[Ev.id].ver < Base(live[Ev.id].res) THEN stale \cup {live[Ev.id].res} ELSE stale
     \* ... or one whose arguments the rule in force reads as another value than the one it occupies a unit of
     /\ resel' = IF Ev.id \in DOMAIN live /\ VOf(live[Ev.id]) # live[Ev.id].v THEN resel \cup {live[Ev.id].res} ELSE resel
-    /\ Judge(Ev.id \in DOMAIN live /\ LiveArgsOK(Ev.live, live'),
-             [why |-> IF Ev.id \in DOMAIN live THEN "live-args" ELSE "exit-of-unknown-entry", live |-> ExpLive(live')])
+    /\ cbx' = IF Ev.id \in DOMAIN live /\ live[Ev.id].c /\ live[Ev.id].pp = "cb" THEN cbx \cup {live[Ev.id].res} ELSE cbx
+    /\ Judge(Ev.id \in DOMAIN live /\ ~(Has(Ev, "panic") /\ Ev.panic) /\ LiveArgsOK(Ev.live, live'),
+             [why |-> IF Ev.id \notin DOMAIN live THEN "exit-of-unknown-entry" ELSE IF Has(Ev, "panic") /\ Ev.panic THEN "panic" ELSE "live-args",
+              live |-> ExpLive(live')])
     /\ UNCHANGED <<seen, g, pend, peak, rv>>
 
 \* how many further entries for (res, args) are admitted now; they are exited again by the driver
@@ -258,9 +291,10 @@ TProbe ==
        IN  /\ v # None /\ Ruled(Ev.res)
            /\ Judge(why = "ok", [why |-> why, n |-> nmin, nmax |-> nmax, tv |-> nmin + hi + 1, v |-> v, inflight |-> hi, since |-> lo,
                                  live |-> ExpLive(live), res |-> Ev.res, stale |-> (Ev.res \in stale), resel |-> (Ev.res \in resel),
-                                 over |-> (Ev.n > nmax \/ (Ev.n = nmax /\ Ev.tv < Max(lo, thr) + 1))])
+                                 over |-> (Ev.n > nmax \/ (Ev.n = nmax /\ Ev.tv < Max(lo, thr) + 1)),
+                                 cbx |-> (Ev.res \in cbx), under |-> (Ev.n < nmin \/ (Ev.n = nmin /\ Ev.tv > nmin + hi + 1))])
     /\ seen' = seen \cup {<<Ev.res, VOf(Ev)>>}
-    /\ UNCHANGED <<live, g, pend, peak, rv, stale, resel>>
+    /\ UNCHANGED <<live, g, pend, peak, rv, stale, resel, cbx>>
 
 \* many goroutines opened and exited entries concurrently; all of them have exited (quiescence).
 \* Nothing is judged here: the probes that follow judge conservation.
@@ -268,7 +302,7 @@ TStress ==
     /\ IsEvent("stress")
     /\ seen' = seen \cup { <<Ev.used[i][1], Ev.used[i][2]>> : i \in DOMAIN Ev.used }
     /\ Judge(live = << >> /\ pend = << >>, [why |-> "stress-with-live-entries"])
-    /\ UNCHANGED <<live, g, pend, peak, rv, stale, resel>>
+    /\ UNCHANGED <<live, g, pend, peak, rv, stale, resel, cbx>>
 
 \* Lookup / Create / Record (/ Exit) of G callers of one value, free-running: see the header.  out[i] = [id, ok, tv]
 AdmitN(res, v, n) == v = None \/ ~Ruled(res) \/ AdmitF(Thr(res, v), n)
@@ -287,7 +321,7 @@ TBurst ==
                         /\ Ev.out[i].ok = AdmitN(Ev.res, v, n)
                         /\ (~Ev.out[i].ok => Ev.out[i].tv = n + 1)
            live2 == IF Ev.hold THEN live @@ [id \in { Ev.out[i].id : i \in adm } |->
-                                                [res |-> Ev.res, v |-> v, args |-> Ev.args, atts |-> Ev.atts, ver |-> Ver(Ev.res)]] ELSE live
+                                                [res |-> Ev.res, v |-> v, args |-> Ev.args, atts |-> Ev.atts, ver |-> Ver(Ev.res), c |-> lim, pp |-> "none"]] ELSE live
            pk    == Max(peak, Cardinality(DOMAIN pend) + G)
            thr   == IF lim THEN Thr(Ev.res, v) ELSE -1
            why   == IF Cardinality(ids) # G \/ ids \cap (DOMAIN live \cup DOMAIN pend) # {} THEN "burst-of-known-entry"
@@ -307,7 +341,7 @@ TBurst ==
                      hi |-> IF ~lim \/ n0 < thr THEN G ELSE 0,
                      first |-> (<<Ev.res, v>> \notin seen), cap |-> IF lim THEN thr + Max(pk - 1, 0) ELSE -1,
                      live |-> ExpLive(live2)])
-    /\ UNCHANGED <<g, pend, rv, stale, resel>>
+    /\ UNCHANGED <<g, pend, rv, stale, resel, cbx>>
 
 \* Reload of HotParamConc: the rule table was replaced (Ev.rules = the table now in force, Ev.via = "load" | "res" | "clear").
 \* Per resource: the rule version is bumped when its rule changed (or was cleared and loaded again); the counters in use start
@@ -324,12 +358,13 @@ TReload ==
            /\ rv' = [ver |-> ver2, base |-> [r \in all |-> IF fresh(r) THEN ver2[r] ELSE Base(r)]]
            /\ stale' = { r \in stale : ~fresh(r) }
            /\ resel' = { r \in resel : ~fresh(r) }
+           /\ cbx' = { r \in cbx : ~fresh(r) }
            /\ Judge(Ev.n = Cardinality(DOMAIN new) /\ LiveArgsOK(Ev.live, live),
                     [why |-> IF Ev.n # Cardinality(DOMAIN new) THEN "reload-rules-not-in-force" ELSE "live-args", live |-> ExpLive(live)])
     /\ UNCHANGED <<live, seen, pend, peak>>
 
 TInit == /\ l = 1 /\ live = << >> /\ seen = {} /\ g = [tr |-> 0, rules |-> << >>] /\ pend = << >> /\ peak = 0
-         /\ rv = [ver |-> << >>, base |-> << >>] /\ stale = {} /\ resel = {} /\ failed = FALSE
+         /\ rv = [ver |-> << >>, base |-> << >>] /\ stale = {} /\ resel = {} /\ cbx = {} /\ failed = FALSE
 TNext == TNew \/ TReq \/ TChk \/ TRec \/ TExit \/ TProbe \/ TStress \/ TBurst \/ TReload
 TSpec == TInit /\ [][TNext]_tvars
 =============================================================================
